@@ -8,14 +8,16 @@ import (
 	"fmt"
 	"math/rand"
 	"net/url"
-	"regexp"
 	"os"
+	"regexp"
 	"strconv"
 	"strings"
 
 	"github.com/trustbloc/sidetree-core-go/pkg/api/protocol"
+	"github.com/trustbloc/sidetree-core-go/pkg/document"
 	"github.com/trustbloc/sidetree-core-go/pkg/hashing"
 	"github.com/trustbloc/sidetree-core-go/pkg/patch"
+	"github.com/trustbloc/sidetree-core-go/pkg/versions/1_0/doccomposer"
 	"github.com/trustbloc/sidetree-core-go/pkg/versions/1_0/model"
 	"github.com/trustbloc/sidetree-core-go/pkg/versions/1_0/operationparser"
 	"github.com/trustbloc/sidetree-core-go/pkg/versions/1_0/operationparser/patchvalidator"
@@ -41,6 +43,39 @@ var id50 = strings.Repeat("a", 50)
 var id51 = strings.Repeat("a", 51)
 
 var idVariants = []string{q("key-1"), q("A_z-09"), q(id50), q(id51), q(""), q("a b"), q("a.b"), q("kä"), q("a\n"), "", "5", "null", q("-")}
+
+func init() {
+	// every printable ASCII character inside an id (the URL-safe class is exactly A-Z a-z 0-9 _ -)
+	for c := 0x20; c <= 0x7e; c++ {
+		idVariants = append(idVariants, q("k"+string(rune(c))+"1"))
+	}
+}
+
+// applyAccepted applies an accepted (non JSON-patch) patch to reachable documents; a panic is a violation.
+func applyAccepted(text string) (pan string) {
+	defer func() {
+		if r := recover(); r != nil {
+			pan = fmt.Sprint(r)
+		}
+	}()
+	docs := []string{`{}`, `{"publicKey":[{"id":"k1","type":"JsonWebKey2020","purposes":["authentication"],"publicKeyJwk":{"kty":"EC","crv":"P-256","x":"PUymIqdtF_qxaAqPABSw-C-owT1KYYQbsMKFM-L9fJA","y":"nM84jDHCMOTGTh_ZdHq4dBBdo4Z5PkEOW9jA8z8IsGc"}},{"id":"k2","type":"JsonWebKey2020","purposes":["keyAgreement"],"publicKeyJwk":{"kty":"EC","crv":"P-256","x":"PUymIqdtF_qxaAqPABSw-C-owT1KYYQbsMKFM-L9fJA","y":"nM84jDHCMOTGTh_ZdHq4dBBdo4Z5PkEOW9jA8z8IsGc"}}],"service":[{"id":"s1","type":"t","serviceEndpoint":"https://a.example"}],"alsoKnownAs":["https://alias.example"]}`}
+	for _, d := range docs {
+		var p patch.Patch
+		if json.Unmarshal([]byte(text), &p) != nil {
+			return ""
+		}
+		if a, _ := p.GetAction(); a == patch.JSONPatch {
+			return "" // the JSON-patch engine is exercised in crash-isolated child processes (gen_jsonpatch)
+		}
+		doc, err := document.FromBytes([]byte(d))
+		if err != nil {
+			panic("generator document: " + err.Error())
+		}
+		_, _ = doccomposer.New().ApplyPatches(doc, []patch.Patch{p})
+	}
+	return ""
+}
+
 var typeVariants = []string{q("JsonWebKey2020"), q("Bls12381G2Key2020"), q("EcdsaSecp256k1VerificationKey2019"), q("Ed25519VerificationKey2018"),
 	q("Ed25519VerificationKey2020"), q("X25519KeyAgreementKey2019"), q("RsaKey"), q(""), "", "null", "7"}
 var purposeVariants = []string{"", "[]", `["authentication"]`, `["keyAgreement"]`, `["assertionMethod","keyAgreement"]`,
@@ -73,8 +108,8 @@ func arr(items ...string) string { return "[" + strings.Join(items, ",") + "]" }
 func patchJ(action, key, val string) string { return obj("action", action, key, val) }
 
 type vk struct {
-	text                string
-	accepted, panicked  bool
+	text               string
+	accepted, panicked bool
 }
 
 func realValidate(text string) (acc, pan bool) {
@@ -562,6 +597,12 @@ func main() {
 			accepted = append(accepted, t)
 			hist["validate"]["accepted"]++
 			hist["validate_by_action"][act+":accepted"]++
+			if pn := applyAccepted(t); pn != "" {
+				hist["validate"]["accepted_but_apply_panics"]++
+				if len(violations) < 20 {
+					violations = append(violations, map[string]interface{}{"oracle": "accepted_delta_never_panics", "what": "ApplyPatches panicked: " + pn, "case": map[string]string{"patch": t}})
+				}
+			}
 			for _, w := range ruleViolations(t) {
 				if len(violations) < 20 {
 					violations = append(violations, map[string]interface{}{"oracle": "accepted_patch_obeys_rules", "what": w, "case": map[string]string{"patch": t}})
